@@ -131,6 +131,20 @@ type Op struct {
 	Make     func(e *Env, slot int) func() string
 }
 
+// bulkNames: long operations used only in the Bulk() scenarios, not in the pair catalogue
+var bulkNames = map[string]bool{}
+
+// Pause is a scheduling point of the driver itself, between obtaining a reader from an export and
+// draining it: a reader that is only a view into something the library reuses is overwritten
+// exactly there.  The scheduler build sets it to a yield, the race pass to runtime.Gosched.
+var Pause = func() {}
+
+// FreshName, when set (race pass), returns a metric name never used before in the process, so that
+// a table which only grows for unknown names is written in every iteration; the scheduler build
+// leaves it nil (fixed names keep executions reproducible; its package-level state is reset
+// before every execution anyway).
+var FreshName func() string
+
 // errStr renders an error completely: message and, for the library's structured errors, the
 // context (%+v names the function and the offending token) — an error value that shows another
 // goroutine's token is a wrong result too.
@@ -171,8 +185,22 @@ func export(rep interface {
 	if err != nil {
 		return "error: " + err.Error()
 	}
+	Pause()
 	b, _ := io.ReadAll(r)
 	return string(b)
+}
+
+// twenty short base vectors per thread slot (bulk operations: rings and pools of up to ~16 entries wrap)
+func bulkVec3(slot, k int) string {
+	av := []string{"N", "A", "L", "P"}
+	cia := []string{"H", "L", "N"}
+	return fmt.Sprintf("CVSS:3.%d/AV:%s/AC:%s/PR:%s/UI:%s/S:%s/C:%s/I:%s/A:%s", (slot+k)%2, av[k%4], []string{"L", "H"}[(k/4)%2], cia[(k+slot)%3], []string{"N", "R"}[k%2], []string{"U", "C"}[(k/2)%2], cia[k%3], cia[(k/3)%3], cia[(k+1+slot)%3])
+}
+
+func bulkVec2(slot, k int) string {
+	a := []string{"N", "A", "L"}
+	c := []string{"N", "P", "C"}
+	return fmt.Sprintf("AV:%s/AC:%s/Au:%s/C:%s/I:%s/A:%s", a[k%3], []string{"L", "M", "H"}[(k/3)%3], []string{"N", "S", "M"}[(k+slot)%3], c[k%3], c[(k/3)%3], c[(k+1+slot)%3])
 }
 
 // Ops is the catalogue O.
@@ -195,9 +223,18 @@ var Ops = []Op{
 	}},
 	{"v3 decode rejected for an unsupported metric", false, func(e *Env, slot int) func() string {
 		return func() string {
-			m, err := v3.NewEnvironmental().Decode(unsup3[slot%len(unsup3)])
+			in, fresh := unsup3[slot%len(unsup3)], ""
+			if FreshName != nil {
+				fresh = FreshName()
+				in = "CVSS:3.1/AV:A/AC:H/PR:L/UI:N/S:C/C:L/I:H/A:L/" + fresh + ":N"
+			}
+			m, err := v3.NewEnvironmental().Decode(in)
 			m2, err2 := v3.NewBase().Decode(unsupBase3[slot%len(unsupBase3)]) // a temporal / environmental name at the base decoder
-			return fmt.Sprint(m == nil, errStr(err), m2 == nil, errStr(err2))
+			res := fmt.Sprint(m == nil, errStr(err), m2 == nil, errStr(err2))
+			if fresh != "" {
+				res = strings.ReplaceAll(res, fresh, "<fresh name>")
+			}
+			return res
 		}
 	}},
 	{"v3 Score", true, func(e *Env, slot int) func() string {
@@ -290,9 +327,18 @@ var Ops = []Op{
 	}},
 	{"v2 decode rejected for an unsupported metric", false, func(e *Env, slot int) func() string {
 		return func() string {
-			m, err := v2.NewEnvironmental().Decode(unsup2[slot%len(unsup2)])
+			in, fresh := unsup2[slot%len(unsup2)], ""
+			if FreshName != nil {
+				fresh = FreshName()
+				in = "AV:N/AC:L/Au:N/C:N/I:N/A:C/" + fresh + ":N"
+			}
+			m, err := v2.NewEnvironmental().Decode(in)
 			m2, err2 := v2.NewBase().Decode(unsupBase2[slot%len(unsupBase2)])
-			return fmt.Sprint(m == nil, errStr(err), m2 == nil, errStr(err2))
+			res := fmt.Sprint(m == nil, errStr(err), m2 == nil, errStr(err2))
+			if fresh != "" {
+				res = strings.ReplaceAll(res, fresh, "<fresh name>")
+			}
+			return res
 		}
 	}},
 	{"v2 Score", true, func(e *Env, slot int) func() string {
@@ -310,6 +356,100 @@ var Ops = []Op{
 	{"v2 GetError", true, func(e *Env, slot int) func() string {
 		return func() string { return errStr(e.E2[slot].GetError()) + fmt.Sprint(e.E2[slot].IsEmpty()) }
 	}},
+}
+
+// bulkOps: long operations used only in the Bulk() scenarios.
+var bulkOps = []Op{
+	{Name: "v3 base decode x20 (distinct vectors)", Make: func(e *Env, slot int) func() string {
+		return func() string {
+			var b strings.Builder
+			for k := 0; k < 20; k++ {
+				m, err := v3.NewBase().Decode(bulkVec3(slot, k))
+				if err != nil {
+					b.WriteString("error: " + err.Error() + ";")
+					continue
+				}
+				fmt.Fprint(&b, m.Score(), m.String(), ";")
+			}
+			return b.String()
+		}
+	}},
+	{Name: "v3 base decode (one vector)", Make: func(e *Env, slot int) func() string {
+		return func() string {
+			m, err := v3.NewBase().Decode(bulkVec3(slot, 7))
+			if err != nil {
+				return "error: " + err.Error()
+			}
+			return fmt.Sprint(m.Score(), m.String())
+		}
+	}},
+	{Name: "v2 base decode x20 (distinct vectors)", Make: func(e *Env, slot int) func() string {
+		return func() string {
+			var b strings.Builder
+			for k := 0; k < 20; k++ {
+				m, err := v2.NewBase().Decode(bulkVec2(slot, k))
+				if err != nil {
+					b.WriteString("error: " + err.Error() + ";")
+					continue
+				}
+				fmt.Fprint(&b, m.Score(), m.String(), ";")
+			}
+			return b.String()
+		}
+	}},
+	{Name: "v2 base decode (one vector)", Make: func(e *Env, slot int) func() string {
+		return func() string {
+			m, err := v2.NewBase().Decode(bulkVec2(slot, 7))
+			if err != nil {
+				return "error: " + err.Error()
+			}
+			return fmt.Sprint(m.Score(), m.String())
+		}
+	}},
+	{Name: "v3 base report export x20, each reader drained after the next export", Make: func(e *Env, slot int) func() string {
+		return func() string {
+			var b strings.Builder
+			m, err := v3.NewBase().Decode(bulkVec3(slot, 3))
+			if err != nil {
+				return "error: " + err.Error()
+			}
+			rep := report.NewBase(m)
+			var prev io.Reader
+			for k := 0; k < 20; k++ {
+				r, err := rep.ExportWithString(fmt.Sprintf("%d/%d {{.Vector}} {{.BaseScore}}", slot, k))
+				if prev != nil {
+					x, _ := io.ReadAll(prev)
+					b.Write(x)
+					b.WriteString(";")
+				}
+				prev = nil
+				if err == nil {
+					prev = r
+				}
+			}
+			if prev != nil {
+				x, _ := io.ReadAll(prev)
+				b.Write(x)
+			}
+			return b.String()
+		}
+	}},
+	{Name: "v3 base report export, reader drained after a pause", Make: func(e *Env, slot int) func() string {
+		return func() string {
+			m, err := v3.NewBase().Decode(bulkVec3(slot, 5))
+			if err != nil {
+				return "error: " + err.Error()
+			}
+			return export(report.NewBase(m), slot)
+		}
+	}},
+}
+
+func init() {
+	for _, o := range bulkOps {
+		bulkNames[o.Name] = true
+	}
+	Ops = append(Ops, bulkOps...)
 }
 
 // Scenario is a closed driver: ops[i] runs on thread i.
@@ -350,6 +490,9 @@ func Pairs() []Scenario {
 	var out []Scenario
 	for a := range Ops {
 		for b := a; b < len(Ops); b++ {
+			if bulkNames[Ops[a].Name] || bulkNames[Ops[b].Name] {
+				continue
+			}
 			name := Ops[a].Name + " || " + Ops[b].Name
 			if Ops[a].Receiver || Ops[b].Receiver {
 				out = append(out, Scenario{name + " [shared object]", []int{a, b}, true})
@@ -370,6 +513,20 @@ func Triples() []Scenario {
 		{"v3 export || v3 export || v3 report(en) [distinct objects]", []int{ix("v3 report + ExportWithString"), ix("v3 report + ExportWithString"), ix("v3 report.NewEnvironmental(en)")}, false},
 		{"v2 Score || v2 Encode/String || v2 decode [shared object]", []int{ix("v2 Score"), ix("v2 Encode/String"), ix("v2 decode accepted")}, true},
 		{"v3 export on one report, same template, three threads [shared object]", []int{ix("v3 ExportWithString on a report built before, same template in every thread"), ix("v3 ExportWithString on a report built before, same template in every thread"), ix("v3 ExportWith(reader) on a report built before, one template per thread")}, true},
+	}
+}
+
+// Bulk: one thread runs a long sequence of operations while the other is in the middle of one
+// (a ring or pool that the library fills round-robin wraps within a single preemption), and export
+// readers that are drained late (round 5, C01-A-r5, C09-B-r5, C16-A-r5, C01-B-r5).
+func Bulk() []Scenario {
+	ix := opIndex
+	return []Scenario{
+		{"v3 base decode x20 || v3 base decode (one vector) [distinct objects]", []int{ix("v3 base decode x20 (distinct vectors)"), ix("v3 base decode (one vector)")}, false},
+		{"v3 base decode x20 || v3 decode accepted [distinct objects]", []int{ix("v3 base decode x20 (distinct vectors)"), ix("v3 decode accepted")}, false},
+		{"v2 base decode x20 || v2 base decode (one vector) [distinct objects]", []int{ix("v2 base decode x20 (distinct vectors)"), ix("v2 base decode (one vector)")}, false},
+		{"v3 base report export x20 (readers drained late) || v3 base report export, reader drained after a pause [distinct objects]", []int{ix("v3 base report export x20, each reader drained after the next export"), ix("v3 base report export, reader drained after a pause")}, false},
+		{"v3 base report export, reader drained after a pause || the same [distinct objects]", []int{ix("v3 base report export, reader drained after a pause"), ix("v3 base report export, reader drained after a pause")}, false},
 	}
 }
 
